@@ -1,6 +1,5 @@
 package main
 
-func genFormatDFA() {}
 func genWidths()    {}
 func genMembers()   {}
 func genFacts()     {}
